@@ -11,6 +11,7 @@ is what `run.py replay` calls, so a replay bypasses the library completely.
 """
 from __future__ import annotations
 
+import contextlib
 import dataclasses
 import hashlib
 import json
@@ -159,6 +160,22 @@ def guarded(fn: typing.Callable[..., typing.Any], *args: typing.Any, allowed: tu
             "a result or one of %s" % [a.__name__ for a in allowed],
             "%s: %s" % (type(ex).__name__, str(ex)[:300]),
         ) from ex
+
+
+@contextlib.contextmanager
+def ordinary_stack(frames: int = 1000) -> typing.Iterator[None]:
+    """Calls into the library with the stack head-room of an ordinary program: the interpreter's default limit of 1000 frames, counted
+    from the caller.  Hypothesis raises the recursion limit while it runs a case, which hides recursion that runs away for users and
+    moves every threshold an implementation derives from `sys.getrecursionlimit()`."""
+    import inspect
+    import sys
+
+    saved = sys.getrecursionlimit()
+    sys.setrecursionlimit(len(inspect.stack(0)) + frames)
+    try:
+        yield
+    finally:
+        sys.setrecursionlimit(saved)
 
 
 def require(cond: bool, signature: str, expected: typing.Any = None, observed: typing.Any = None, detail: str = "") -> None:
